@@ -80,8 +80,11 @@ pub enum AtomKind {
     /// two filter selectors in neighbouring segments of the test query, `@.t[?@.r][?@.d]` (predicates chained
     /// by a query builder): true when some child of a kept row has `d`
     NestedTwice,
+    /// a member called like a property of another dialect's arrays and strings, `@.f.length == 2`: true only
+    /// for an object that has such a member - an array of two elements or a string of two characters has none
+    ForeignProperty,
 }
-pub const KINDS: [AtomKind; 15] = [
+pub const KINDS: [AtomKind; 16] = [
     AtomKind::Exists,
     AtomKind::CmpEq,
     AtomKind::Match,
@@ -97,6 +100,7 @@ pub const KINDS: [AtomKind; 15] = [
     AtomKind::ExistsSeveral,
     AtomKind::NestedThenMore,
     AtomKind::NestedTwice,
+    AtomKind::ForeignProperty,
 ];
 
 fn nm(s: &str) -> StrLit {
@@ -210,6 +214,14 @@ fn atom_expr(kind: AtomKind, i: usize) -> (Expr, bool) {
                 ]))),
             ),
             true,
+        ),
+        AtomKind::ForeignProperty => (
+            Expr::Cmp(
+                Box::new(Cmpable::Sing(Sing { abs: false, steps: vec![SingStep::Name(nm(&format!("f{}", i)), true), SingStep::Name(nm(["length", "size", "count"][i % 3]), true)] })),
+                if i % 2 == 0 { Op::Eq } else { Op::Ge },
+                Box::new(Cmpable::Lit(Lit::Num(num_lit_int(2)))),
+            ),
+            false,
         ),
         AtomKind::NestedTwice => (
             Expr::Test(
@@ -416,6 +428,22 @@ fn atom_members(src: &mut Src, kind: AtomKind, i: usize, truth: bool, out: &mut 
                     1 => out.push((n, J::Arr(vec![kept(None), kept(None)]))),
                     2 => out.push((n, J::Arr(vec![J::Obj(vec![("d".to_string(), J::Int(1))]), kept(None)]))),
                     _ => out.push((n, J::Arr(vec![]))),
+                }
+            }
+        }
+        AtomKind::ForeignProperty => {
+            let f = format!("f{}", i);
+            let prop = ["length", "size", "count"][i % 3];
+            if truth {
+                out.push((f, J::Obj(vec![(prop.to_string(), J::Int(2)), ("x".to_string(), J::Int(0))])));
+            } else {
+                match src.below(6) {
+                    0 => {}
+                    1 => out.push((f, J::Arr(vec![J::Int(1), J::Int(2)]))),
+                    2 => out.push((f, J::Str("ab".into()))),
+                    3 => out.push((f, J::Obj(vec![("a".to_string(), J::Int(1)), ("b".to_string(), J::Int(2))]))),
+                    4 => out.push((f, J::Obj(vec![(prop.to_string(), J::Int(1))]))),
+                    _ => out.push((f, J::Arr(vec![J::Obj(vec![(prop.to_string(), J::Int(2))]), J::Int(2), J::Int(3)]))),
                 }
             }
         }
